@@ -263,4 +263,3 @@ func genTokAcc(h *H) {
 		}
 	}
 }
-
